@@ -11,6 +11,14 @@ from . import common
 
 MODULES = {
     "C04": "c04",
+    "C01": "c01",
+    "C02": "c02",
+    "C03": "c03",
+    "C05": "c05",
+    "C06": "c06",
+    "C16": "c16",
+    "C15": "c15",
+    "C08": "c08",
     "C09": "c09",
     "C19": "c19",
     "C10": "c10",
